@@ -5,6 +5,6 @@ From Coq Require Import Extraction ExtrOcamlBasic List NArith ZArith.
 From Sam Require Import Run.ExtractDeps.
 Extraction Language OCaml.
 Separate Extraction
-  BinNums.Z BinNat.N.add BinNat.N.mul BinNat.N.div_eucl BinInt.Z.add BinInt.Z.opp
+  Coq.Strings.String.string Coq.Strings.Ascii.ascii BinNums.Z BinNat.N.add BinNat.N.mul BinNat.N.div_eucl BinInt.Z.add BinInt.Z.opp
   Sam.Gen.Tables
-  Sam.Model.Slot Sam.Model.Bytes Sam.Model.Resp Sam.Model.Reader Sam.Model.Codec.
+  Sam.Model.Slot Sam.Model.Bytes Sam.Model.Resp Sam.Model.Reader Sam.Model.Codec Sam.Model.Frame.
